@@ -434,7 +434,8 @@ struct conf_node_string_list *conf_register_string_list(struct conf_node_object 
         string_vector_append(&cnode->def_value, xstrdup(arg));
     va_end(args);
 
-    if (!cnode->value.size)
+    /* An empty list given by the file is a value, not a missing one. */
+    if (!cnode->base.present && !cnode->value.size)
         string_vector_copy(&cnode->value, &cnode->def_value);
     return cnode;
 }
@@ -446,7 +447,8 @@ struct conf_node_string_list *conf_register_string_list_sv(struct conf_node_obje
     cnode = conf_register_node(parent, name, CONF_STRING_LIST, sizeof(*cnode));
     string_vector_clear_int(&cnode->def_value);
     string_vector_copy(&cnode->def_value, sv);
-    if (!cnode->value.size)
+    /* An empty list given by the file is a value, not a missing one. */
+    if (!cnode->base.present && !cnode->value.size)
         string_vector_copy(&cnode->value, &cnode->def_value);
     return cnode;
 }
